@@ -22,7 +22,7 @@ pub broadcast axiom fn axiom_string_borrowed_maps<V>(m: Map<String, V>, k: &Stri
 pub broadcast axiom fn axiom_string_borrowed_removed<V>(m: Map<String, V>, m2: Map<String, V>, k: &String)
     ensures #[trigger] borrowed_key_removed::<String, V, String>(m, m2, k) <==> m2 == m.remove(*k);
 pub broadcast group string_key_axioms { axiom_skey_view, axiom_skey_ext, axiom_str_borrowed_contains, axiom_str_borrowed_maps, axiom_str_borrowed_removed,
-    axiom_string_borrowed_contains, axiom_string_borrowed_maps, axiom_string_borrowed_removed }
+    axiom_string_borrowed_contains, axiom_string_borrowed_maps, axiom_string_borrowed_removed, axiom_str_mutated }
 // conversion of `impl Into<String>` arguments (rule R23)
 pub uninterp spec fn into_string_view<T>(t: T) -> Seq<char>;
 pub broadcast axiom fn axiom_into_string_view_str(s: &str)
@@ -36,3 +36,18 @@ pub broadcast group into_string_axioms { axiom_into_string_view_str, axiom_into_
 fn verif_into_string<T: Into<String>>(t: T) -> (r: String)
     ensures r@ == into_string_view(t)
 { t.into() }
+// HashMap::get_mut (no spec in vstd): the entry may be mutated in place, every other key is untouched
+pub uninterp spec fn mutated_at_borrowed_key<K, V, Q: ?Sized>(m1: Map<K, V>, m2: Map<K, V>, k: &Q, v: V) -> bool;
+pub assume_specification<'a, K, V, S, A, Q> [std::collections::HashMap::<K, V, S, A>::get_mut] (m: &'a mut std::collections::HashMap<K, V, S, A>, k: &Q) -> (r: std::option::Option<&'a mut V>)
+            where
+            A: std::alloc::Allocator,
+            K: std::cmp::Eq + std::hash::Hash + std::borrow::Borrow<Q>,
+            Q: std::marker::MetaSized + std::hash::Hash + std::cmp::Eq + ?Sized,
+            S: std::hash::BuildHasher,
+    ensures obeys_key_model::<K>() && builds_valid_hashers::<S>() ==> match r {
+        None => !contains_borrowed_key(old(m)@, k) && final(m)@ == old(m)@,
+        Some(v) => contains_borrowed_key(old(m)@, k) && maps_borrowed_key_to_value(old(m)@, k, *v)
+                   && mutated_at_borrowed_key(old(m)@, final(m)@, k, *final(v)),
+    };
+pub broadcast axiom fn axiom_str_mutated<V>(m1: Map<String, V>, m2: Map<String, V>, k: &str, v: V)
+    ensures #[trigger] mutated_at_borrowed_key::<String, V, str>(m1, m2, k, v) <==> m2 == m1.insert(skey(k@), v);
